@@ -130,8 +130,20 @@ def run(ctx):
     scs = [c0, c1, c2, c3] + [gen(rng, ['parfile', 'parblock'][i % 2], i) for i in range(n)]
     runs = []
     with core.Scratch('c17') as base:
+        # a HOME whose git configuration excludes a lot (core.excludesFile and the XDG default): only the source's own root
+        # .gitignore counts, so the result must not depend on who runs the command
+        home = base + '/home'
+        os.makedirs(home + '/.config/git'); os.makedirs(home + '/xdg/git')
+        open(home + '/.config/git/ignore', 'w').write('*.c\nkeep*\na\nb\ntop\n.hidden\n')
+        open(home + '/xdg/git/ignore', 'w').write('*\n')
+        open(home + '/global-excludes', 'w').write('src\nz\nq\n*.o\nmain.c\n')
+        open(home + '/.gitconfig', 'w').write(f'[core]\n\texcludesFile = {home}/global-excludes\n')
         for i, sc in enumerate(scs):
-            o = treerun.run(base, sc)
+            envx = None
+            if i % 3 == 1:
+                envx = dict(HOME=home) if i % 2 else dict(HOME=home, XDG_CONFIG_HOME=home + '/xdg')
+            o = treerun.run(base, sc, env_extra=envx)
+            sc.envx = bool(envx)
             o.git = set().union(*[git_excluded(o.root, sc, g) for g in sc.gis]) if sc.gi['use'] else set()
             runs.append((i, sc, o))
         ans = core.ask(core.MODEL, [o.request for _, _, o in runs])
@@ -139,7 +151,7 @@ def run(ctx):
         g = sc.gi
         after = treerun.decode(o.after)
         nlines = len([l for l in g['text'].split(b'\n') if l.strip() and not l.startswith(b'#')])
-        ctx.count(f'exit.{o.res.cls}'); ctx.count('option.on' if g['use'] else 'option.off'); ctx.count(f'pattern_lines.{min(nlines, 5)}')
+        ctx.count(f'exit.{o.res.cls}'); ctx.count('option.on' if g['use'] else 'option.off'); ctx.count('home_with_global_excludes' if getattr(sc, 'envx', False) else 'home_plain'); ctx.count(f'pattern_lines.{min(nlines, 5)}')
         ctx.count(f'git_excluded.{min(len(o.git), 6)}')
         ctx.case((g['text'], tuple(p for p, _ in g['ents']), g['use'], sc.driver), nontrivial=nlines > 0 and g['use'],
                  sample=dict(gitignore=g['text'].decode(), entries=[p.decode() for p, _ in g['ents']][:12], git_excluded=sorted(x.decode() for x in o.git)[:12]) if i in (0, 4, 9) else None)
